@@ -418,14 +418,14 @@ def model_lines(case, impl):
              f"cov {g} {V} {Mk} {g} -", f"arith {g} {V} {Mk} {V2} {case['a']}"]
     # P-spline: the basis on the grid as the NaN-encoded fit built it (a parameter of the model)
     fits = impl["nan"].get("ps_fits") or []
-    if fits and len(fits[0]["x"]) == len(case["t"]):
+    if fits and len(fits[0]["x"]) == len(case["t"]) and np.all(np.isfinite(np.array(fits[0]["basis"], dtype=float))):
         Bm = ";".join(_exactv(r) for r in fits[0]["basis"])
         lines.append(f"ps {g} {V} {Mk} {Bm}")
     else:
         lines.append("noop")
     lines.append(f"fmt {g} {V} {Mk} {g}")
     mu = impl["nan"].get("mean_lp_plain")
-    if isinstance(mu, list):
+    if isinstance(mu, list) and np.all(np.isfinite(np.array(mu, dtype=float))):
         muv = _exactv(mu[0])
         lines += [f"center {g} {V} {Mk} {g} {muv}", f"cov {g} {V} {Mk} {g} {muv}", f"gram {g} {V} {Mk} {g} {muv} 0"]
     else:
@@ -449,6 +449,8 @@ def _cmp_rows(name, got, want, exact=True, scale=1.0):
     for k, (a, b) in enumerate(zip(got, want)):
         if float(a[0]) != float(b[0]) or int(a[1]) != int(b[1]):
             return [f"{name} row {k}: impl {a} model {[float(x) for x in b]}"]
+        if not math.isfinite(float(a[2])):
+            return [f"{name} row {k}: non-finite value {a[2]!r}, model {float(b[2])!r}"]
         if exact:
             if Fraction(float(a[2])) != b[2]:
                 return [f"{name} row {k}: value {a[2]!r} model {float(b[2])!r}"]
@@ -538,6 +540,9 @@ def compare(case, impl, model):
                 Am, bm = blk.split("#")
                 Aq, bq = pmat(Am), pvec(bm)
                 P = _penalty_matrix(K, ft["order"])
+                if not np.all(np.isfinite(np.array(ft["beta"], dtype=float))):
+                    ds.append(f"P-spline[{e}] curve {i}: non-finite coefficients")
+                    break
                 beta = [Fraction(float(x)) for x in ft["beta"]]
                 for k in range(K):
                     terms = [(Aq[k][l] + lam * int(P[k][l])) * beta[l] for l in range(K)]
@@ -552,7 +557,8 @@ def compare(case, impl, model):
     for j, e in enumerate(encs):
         fit = (impl[e].get("mean_ps_fit") or [None])[0]
         if fit is not None and isinstance(impl[e].get("mean_ps"), list):
-            if fit["x"] != [float(x) for x in t] or [Fraction(float(y)) for y in fit["y"]] != pvec(parts[j]) or \
+            fin = np.all(np.isfinite(np.array(fit["y"], dtype=float))) and np.all(np.isfinite(np.array(fit["w"] or [], dtype=float)))
+            if not fin or fit["x"] != [float(x) for x in t] or [Fraction(float(y)) for y in fit["y"]] != pvec(parts[j]) or \
                     [Fraction(float(y)) for y in (fit["w"] or [])] != pvec(parts[2 + j]):
                 ds.append(f"mean(PS) inputs[{e}]: the P-spline did not receive the model's _format_data values/weights")
     if o[10] != "noop":
